@@ -1,1 +1,5 @@
+pub mod interp;
+pub mod poetic;
+pub mod rast;
 pub mod selftest;
+pub mod value;
